@@ -77,6 +77,9 @@ func newVecSUT(rng *rand.Rand, kind string, metric comet.DistanceKind, vg func(d
 	switch kind {
 	case "ivf":
 		nTrain = s.nlist + rng.IntN(60)
+		if rng.IntN(5) == 0 {
+			nTrain = s.nlist // exactly one training vector per cluster (k = n in k-means)
+		}
 	case "pq":
 		nTrain = (1 << s.nbits) + rng.IntN(60)
 	case "ivfpq":
